@@ -282,3 +282,54 @@ func sat(a, b uint64) uint64 {
 	}
 	return a - b
 }
+
+// C03x: the backend changes UNDERNEATH the server (another export of the same tree, a local writer) while the
+// server holds cache entries about the names involved - negative entries in particular - and a CREATE of such a
+// name follows.  The external change is made directly on the backend just before a NULL request, whose recorded
+// tree therefore shows it.  Judged by the C03 oracle alone (the code-level model knows nothing of external writers).
+func init() {
+	Props["C03x"] = &Prop{Imports: srvImports + "Corr.C03x.", Gen: genC03x, ShardSize: 25,
+		NonTrivial: func(c *Case) bool { return c.Tags["external-creates"] > 0 }}
+}
+
+func genC03x(r *Rand, idx int, tier string) Case {
+	cfg := genCfg(r)
+	cfg.MaxHand = 0
+	cfg.NegOn, cfg.NegTTL = r.Chance(75), 5*1e9
+	cfg.AttrTTL = 5 * 1e9
+	s := NewSession(cfg, popTree(NewRand(r.U64(), 3)))
+	root := nfsx.Cred{}
+	s.Do(0, root, &nfsx.Req{Proc: "MNT", Name: []byte("/")})
+	n := 3 + r.Intn(4)
+	for i := 0; i < n; i++ {
+		nm := []byte(PickStr(r, "b", "x1", "x2", "new", "é"))
+		// the server learns that the name does not exist (negative entry when enabled), or nothing at all
+		if r.Chance(80) {
+			s.Do(pickAdv(r), root, &nfsx.Req{Proc: "LOOKUP", H: 1, Name: nm})
+		}
+		// somebody else creates it, with data
+		if f, err := s.Env.FS.Create("/" + string(nm)); err == nil {
+			f.WriteAt([]byte("precious data"), 0)
+			f.Sync()
+			f.Close()
+			s.Tags["external-creates"]++
+		}
+		s.Do(0, root, &nfsx.Req{Proc: "NULL"})
+		q := &nfsx.Req{Proc: "CREATE", H: 1, Name: nm, How: uint32(r.Intn(3))}
+		if r.Chance(30) {
+			q.Sa.Size = u64p(PickU64(r, 0, 4, 40))
+		}
+		if r.Chance(30) {
+			q.Sa.Mode = u32p(0600)
+		}
+		s.Do(pickAdv(r), pickCred(r), q)
+		s.Do(0, root, &nfsx.Req{Proc: "LOOKUP", H: 1, Name: nm})
+		if r.Chance(50) {
+			// and somebody else removes it again
+			s.Env.FS.Remove("/" + string(nm))
+			s.Do(0, root, &nfsx.Req{Proc: "NULL"})
+			s.Do(0, root, &nfsx.Req{Proc: "CREATE", H: 1, Name: nm, How: uint32(r.Intn(2))})
+		}
+	}
+	return s.Case("external-writer", idx)
+}
